@@ -81,7 +81,7 @@ pub open spec fn is_laguerre(p: Polynomial, n: nat) -> bool {
     # R19: vx_c1 = choose(n,k), vx_c2 = factorial(k), vx_c3 = vx_c1 / vx_c2, vx_c4 = the sign
     f.anf("coefficients.push(", "c", bind_operands=True)
     f.req("tol@ > 0real", "n < 0x3fff_ffff")
-    f.ens("res is Ok", "is_laguerre(res->Ok_0, n as nat)")
+    f.ens("res is Ok", "is_laguerre(res->Ok_0, n as nat)", "res->Ok_0.tolerance == tol")
     f.opt(subst=[("let mut coefficients =", "let mut coefficients: Vec<R> =", "R10-type-annotation"),
                  ("coefficients.iter().copied().collect()",
                   "Polynomial::vx_from_vec(coefficients.iter().map(|c_: &R| -> (y_: R) ensures y_ == *c_ { *c_ }).collect())", "R5-copied+R20-collect-into-polynomial")])
@@ -104,8 +104,8 @@ def legendre(u):
     f = u.fn(SFILE, "legendre")
     C = "|a: nat, b: int| leg_c(a, b)"
     f.req("tol@ > 0real", "n <= 0x3fff_ffff")
-    f.ens("res is Ok", f"is_family(res->Ok_0, n as nat, {C})")
-    f.loop(1, iter="it", invariant=["n >= 2", f"is_family(p_1, (it.index@ + 1) as nat, {C})", f"is_family(p_0, it.index@ as nat, {C})"])
+    f.ens("res is Ok", f"is_family(res->Ok_0, n as nat, {C})", "res->Ok_0.tolerance == tol")
+    f.loop(1, iter="it", invariant=["n >= 2", "p_1.tolerance == tol", f"is_family(p_1, (it.index@ + 1) as nat, {C})", f"is_family(p_0, it.index@ as nat, {C})"])
     # R19 let-introduction: vx_l1 = the factor (2i+1)x ; vx_b1 = p_0 * i
     f.anf("let mut p_next =", "l", bind_operands=True)
     f.anf("p_next -=", "b", bind_root=True)
@@ -287,6 +287,8 @@ DECIDED = [
     "legendre(n), hermite(n), chebyshev(n), chebyshev_second(n) return a polynomial with exactly n+1 stored coefficients equal, coefficient by coefficient, to the classical three-term recurrences (A&S 22.7) for every n <= 2^30 and every positive tolerance",
     "the leading coefficient c(n,n) of each recurrence family is positive and all higher ones vanish (Verus lemmas): degree exactly n",
     "laguerre(n): coefficient k satisfies c_k k! k! = (-1)^k n(n-1)...(n-k+1), i.e. c_k = (-1)^k C(n,k)/k!; choose and factorial are verified against product specifications",
+    "legendre(n, tol) and laguerre(n, tol) return a polynomial whose zero tolerance is tol (what legendre_zeros / laguerre_zeros rely on, C14 unit zeros); not decided for hermite / chebyshev*, "
+    "whose result is a product and the product contract of multiply() deliberately says nothing about the tolerance",
     "every polynomial product used by the constructors goes through the exact linear-factor path of multiply(), re-verified in this unit",
 ]
 NOT_DECIDED = ["rounding (exact reals); the complex instantiation; the *_zeros functions (see C14)",
